@@ -911,6 +911,8 @@ class Executor:
                 return VFunc("builtin", dotted)
             if dotted in models.EXTERNAL_CLASSES:
                 return VClass(dotted)
+            if dotted in models.EXTERNAL_CONSTS:
+                return self.const(models.EXTERNAL_CONSTS[dotted])       # documented constants of the standard library
             return VModule(dotted)
         return VModule(dotted)
 
@@ -1044,11 +1046,27 @@ class Executor:
                     from . import natives
                     self.raise_if(state, v.t < 0, "Unsupported-negative-format")
                     return VStr(natives.fmt06d(v.t))
+        vals = []
         for part in e.values:
             if isinstance(part, ast.FormattedValue):
-                self.ev(state, part.value)
+                vals.append((part, self.ev(state, part.value)))
         if all(isinstance(p, ast.Constant) for p in e.values):
             return VStr("".join(p.value for p in e.values))
+        # literal text and plain {int} / {str} fields: the exact string; anything else stays opaque
+        if all(p.format_spec is None and p.conversion == -1 and isinstance(v, (VInt, VStr)) and not isinstance(v, VBool)
+               for p, v in vals):
+            parts = []
+            it = iter(vals)
+            for p in e.values:
+                if isinstance(p, ast.Constant):
+                    parts.append(z3.StringVal(p.value))
+                else:
+                    v = next(it)[1]
+                    if isinstance(v, VStr):
+                        parts.append(v.t)
+                    else:
+                        parts.append(z3.If(v.t >= 0, z3.IntToStr(v.t), z3.Concat(z3.StringVal("-"), z3.IntToStr(-v.t))))
+            return VStr(parts[0] if len(parts) == 1 else z3.Concat(*parts))
         self.notes["dropped"].add("f-string contents (opaque str)")
         return VStr(z3.String(fresh_name("fstr")))
 
